@@ -1,4 +1,5 @@
 import Operon.Lemmas.C19
+import Operon.Lemmas.C19Hist
 import Operon.Model.CascadeTr
 import Operon.Model.CascadeMapk
 import Operon.Gen.CascadeTable
@@ -299,6 +300,86 @@ theorem c19_completion_observer_is_transparent_or_raises (cfg : Cfg) (obs : Opti
     · simp [resultC, finishC, hres]
     · simp [resultC, finishC, hres, hf]
 
+/-! ### The history (`get_history`) and `AgentCascade`
+
+Every clause above holds for every configuration, stage list and input; the theorems below say that the two remaining ways in
+which the anchored file hands out results or builds pipelines stay inside them: the records kept in the history are results of
+`run` (so whatever was withheld by `run` is withheld there too), and an `AgentCascade` is a cascade whose stage list contains
+stages of the shape `agentStage` — run by the inherited `run`. -/
+
+/-- **The history holds results of runs, nothing else.**  After any sequence of calls of `run` / `run_parallel` on one cascade
+    object (configuration and stage list as they were at each call), every sequential record of `_results_history` is the
+    result of one of those `run` calls — so every clause theorem above speaks about every record `get_history` hands out. -/
+theorem c19_history_holds_only_results_of_runs (cs : List (Call σ)) (limit : Int) (r : Result σ)
+    (hr : HRec.seq r ∈ getHistory (histAfter cs) limit) :
+    ∃ cfg stages x, Call.run cfg stages x ∈ cs ∧ r = result cfg stages x := by
+  have hmem : HRec.seq r ∈ histAfter cs := by
+    unfold getHistory at hr
+    split at hr
+    · exact mem_lastN hr
+    · split at hr
+      · exact hr
+      · exact List.mem_of_mem_drop hr
+  rcases mem_foldl_histStep cs [] r hmem with h | h
+  · simp at h
+  · exact h
+
+/-- **No final output is released through the history either**: a record of an unsuccessful run carries no output, whatever
+    limit `get_history` is asked with (positive, zero, negative), however many calls came before. -/
+theorem c19_history_releases_nothing_a_run_withheld (cs : List (Call σ)) (limit : Int) (r : Result σ)
+    (hr : HRec.seq r ∈ getHistory (histAfter cs) limit) (hs : r.success = false) : r.final = none := by
+  obtain ⟨cfg, stages, x, _, rfl⟩ := c19_history_holds_only_results_of_runs cs limit r hr
+  exact c19_no_output_unless_success cfg stages x hs
+
+/-- **The history is the newest 1000 results, oldest first**, for every number of sequential runs (no bound): `run` appends
+    and trims, so after the calls `runs` the history is `lastN histCap` of all results ever returned, and `get_history(k)`
+    for a positive `k` hands out the newest `min k histCap` of them. -/
+theorem c19_history_is_the_newest_results (runs : List (Cfg × List (Stage σ) × σ)) (k : Nat) (hk : 0 < k) :
+    histAfter (runs.map fun c => Call.run c.1 c.2.1 c.2.2) =
+      lastN histCap (runs.map fun c => HRec.seq (result c.1 c.2.1 c.2.2)) ∧
+    getHistory (histAfter (runs.map fun c => Call.run c.1 c.2.1 c.2.2)) k =
+      lastN (min k histCap) (runs.map fun c => HRec.seq (result c.1 c.2.1 c.2.2)) := by
+  have h1 : histAfter (runs.map fun c => Call.run c.1 c.2.1 c.2.2) =
+      lastN histCap (runs.map fun c => HRec.seq (result c.1 c.2.1 c.2.2)) := by
+    have := foldl_runs_eq runs ([] : List (HRec σ))
+    simpa [histAfter, lastN] using this
+  refine ⟨h1, ?_⟩
+  rw [h1]
+  unfold getHistory
+  have hk' : (k : Int) > 0 := by omega
+  simp only [hk', if_true, Int.toNat_natCast]
+  exact lastN_lastN k histCap _
+
+/-- **The history of the model is the history of the source.**  `Gen/CascadeTable.lean :: histFacts` is regenerated on every
+    run by driving the real `Cascade` through 1005 runs (the records kept are the newest 1000, oldest first), a following
+    `run_parallel` (appended without trimming: 1001) and one more run (trimmed: 1000), a run whose `on_cascade_complete` raises
+    (record kept), a fork of an empty cascade (nothing recorded), `get_history(k)` for k = -7..7 on a five-record history and
+    `get_history()` on a 105-record one; `histCap`, `pushSeq`, `pushPar`, `histStep`, `getHistory`, `histDefault` reproduce
+    all of it. -/
+theorem c19_history_agrees_with_evaluated_source :
+    ∃ f, Gen.CascadeTable.histFacts = some f ∧ histAgrees f = true := by
+  refine ⟨_, rfl, by decide +kernel⟩
+
+/-- **An AgentCascade is a cascade.**  `Gen/CascadeTable.lean :: agentFacts` is regenerated on every run by evaluating the
+    real `AgentCascade.add_agent_stage` with a stub agent class: `run`, `run_parallel`, `get_history` are the inherited
+    functions; the stage registered is gated by exactly the checkpoint handed in (ungated when none is), has no error handler,
+    is required, carries the given factor (1 by default), and its processor hands the signal to the agent's `express` (a
+    Signal as it is, anything else as `Signal(content=str(x))`), returns the protein's payload as it is and lets an exception
+    of `express` through.  `agentStage` is that stage. -/
+theorem c19_agent_stage_agrees_with_evaluated_source :
+    ∃ f, Gen.CascadeTable.agentFacts = some f ∧ agentAgrees f = true := by
+  refine ⟨_, rfl, by decide +kernel⟩
+
+/-- **Agents express only behind a gate that said yes** — the first clause for a pipeline of agent stages and plain stages in
+    any mix: an agent's `express` is a processor event, so it is directly preceded by the `true` answer of the checkpoint its
+    stage was registered with, on the same signal (instance of `c19_processor_only_after_true_checkpoint`, stated so that the
+    quantifier visibly covers `AgentCascade`). -/
+theorem c19_agent_expresses_only_after_true_checkpoint (cfg : Cfg) (pre post : List (Stage σ))
+    (cp : σ → Out Bool) (express : σ → Out σ) (amp : Rat) (x : σ) :
+    GatedFrom (pre ++ agentStage (some cp) express amp :: post) none
+      (result cfg (pre ++ agentStage (some cp) express amp :: post) x).log :=
+  c19_processor_only_after_true_checkpoint cfg _ x
+
 /-! ### Non-vacuity: concrete pipelines meeting the hypotheses -/
 
 private def sPass : Stage Nat := ⟨some fun _ => .ok true, fun x => .ok (x + 1), none, true, 2⟩
@@ -352,5 +433,17 @@ example : (result ⟨true, 100⟩ (mapkPreset 10 10 10) 0).success = true ∧ (r
     (result ⟨true, 1000⟩ (mapkPreset 10 10 10) 0).amplification = 1000 ∧
     (result ⟨true, 100⟩ (mapkPreset 10 10 10) 0).log = [.proc 0 0, .cp 1 1 (.ok true), .proc 1 1, .cp 2 2 (.ok true), .proc 2 2] := by
   decide +kernel
+
+/-- a history with an unsuccessful record in it (hypotheses of `c19_history_releases_nothing_a_run_withheld`), seen through a
+    zero, a positive and a negative limit; and a fork in between that is recorded but is no sequential record -/
+example : (getHistory (histAfter [Call.run ⟨true, 100⟩ [sPass] 5, .prun [sPass] 1, .run ⟨true, 100⟩ [sReject] 5]) 0).length = 3 ∧
+    (getHistory (histAfter [Call.run ⟨true, 100⟩ [sPass] 5, .prun [sPass] 1, .run ⟨true, 100⟩ [sReject] 5]) 1).length = 1 ∧
+    (getHistory (histAfter [Call.run ⟨true, 100⟩ [sPass] 5, .prun [sPass] 1, .run ⟨true, 100⟩ [sReject] 5]) (-1)).length = 2 ∧
+    (result ⟨true, 100⟩ [sReject] 5).success = false := by decide
+
+/-- an agent stage behind a rejecting gate never expresses; behind a passing gate it does, after the `true` answer -/
+example : (result ⟨false, 100⟩ [agentStage (some fun _ => .ok false) (fun x => .ok (x + 1)) 2,
+                               agentStage (some fun _ => .ok true) (fun x => .ok (x + 1)) 2] 5).log =
+    [.cp 0 5 (.ok false), .cp 1 5 (.ok true), .proc 1 5] := by decide
 
 end Operon.Cascade
